@@ -80,6 +80,33 @@ def detect(mid, props, tier="quick", extra=""):
     json.dump(meta, open(os.path.join(dst, "meta.json"), "w"), indent=1)
 
 
+def detect_scratch(mid, props, seed=1, tier="quick", workers=8, key=None):
+    """Like detect(), but in a scratch worktree selected through GTSIM_TREE: /repo is never touched and
+    evidence / replay files of the registered checks are not overwritten.  Used for seed-robustness sweeps."""
+    dst = os.path.join(SEEDED, mid)
+    meta = json.load(open(os.path.join(dst, "meta.json")))
+    wt = f"/tmp/det_{mid}"
+    sh(f"git -C /repo worktree remove --force {wt}")
+    rc, out = sh(f"git -C /repo worktree add -q --detach {wt} HEAD")
+    assert rc == 0, out
+    try:
+        rc, out = sh(f"git -C {wt} apply {dst}/patch.diff")
+        assert rc == 0, out
+        env = dict(os.environ, GTSIM_TREE=wt, GTSIM_EVIDENCE_DIR=f"/tmp/det_ev_{mid}", GTSIM_REPLAY_DIR=f"/tmp/det_rp_{mid}")
+        res = meta.setdefault(key or f"detection_seed{seed}", {})
+        for p in props:
+            t0 = time.time()
+            rc, out = sh(f"./check {p} --tier {tier} --seed {seed} --workers {workers}", cwd=VERIF, env=env)
+            lines = [l for l in out.splitlines() if l.startswith("VIOLATION") or l.startswith("  check=")]
+            res[p] = {"exit": rc, "tier": tier, "seed": seed, "wall_s": round(time.time() - t0, 1), "lines": lines[:4]}
+            print(mid, p, "seed", seed, "exit", rc, lines[1:2])
+    finally:
+        sh(f"git -C /repo worktree remove --force {wt}")
+        shutil.rmtree(f"/tmp/det_ev_{mid}", ignore_errors=True)
+        shutil.rmtree(f"/tmp/det_rp_{mid}", ignore_errors=True)
+    json.dump(meta, open(os.path.join(dst, "meta.json"), "w"), indent=1)
+
+
 def table():
     rows = []
     for mid in sorted(os.listdir(SEEDED)):
@@ -99,5 +126,7 @@ if __name__ == "__main__":
         confirm(sys.argv[2], sys.argv[3], sys.argv[4], run_suite=(len(sys.argv) < 6 or sys.argv[5] != "nosuite"))
     elif cmd == "detect":
         detect(sys.argv[2], sys.argv[3:])
+    elif cmd == "detect_scratch":
+        detect_scratch(sys.argv[2], sys.argv[4:], seed=int(sys.argv[3]))
     elif cmd == "table":
         table()
